@@ -269,14 +269,14 @@ def run(spec, mon):
             case["cfg"]["cafs"] = True
         else:
             # backgrounds at both levels, outlines inside rules, examples placeholders inside background steps
-            case = RB.gen_case(rng, p_names=0.1, gen={"p_bg_param": 0.4, "p_background": 0.7, "p_rule_background": 0.6,
+            case = RB.gen_case(rng, p_names=0.1, gen={"p_bg_param": 0.4, "p_background": 0.7, "p_rule_background": 0.6, "value_columns": ["x", "service status", "step-outcome"],
                                                       "p_outline": 0.45, "p_repeat_text": 0.3, "max_steps": 4, "p_reserved_step": 0.5} if i % 3 == 1 else
                                {"p_bg_param": 0.3, "p_cuke": 0.2, "outcomes": OUTCOMES + ["skip_feature", "skip_rule"],
                                 "weights": {"skip_feature": 3.0, "skip_rule": 2.0}, "p_nonpass": 0.25})
             for oc in ("skip_feature", "skip_rule"):
                 if oc in case["program"]["outcomes"].values():
                     mon.seen("step_skips_rest_of", oc.split("_")[1])
-        if "<x>" in repr([f.get("background") for f in case["program"]["features"]]):
+        if "<" in repr([[st["text"] for st in (f.get("background") or {}).get("steps", [])] for f in case["program"]["features"]]):
             mon.seen("background_step_with_placeholder", "feature")
         if case["program"].get("reserved_in_step_text"):
             mon.seen("outline_step_text", "with_special_placeholder")
